@@ -334,6 +334,8 @@ def behavior_cases(model: Model, c: ClassInfo) -> list[Case]:
                         w = {"write_byte": 1, "write_halfword": 2, "write_word": 4}[fn.split(".")[-1]]
                         a, v = n.value.args[0], n.value.args[1]
                         eff["mem"] = (w, show(ex.ev(a)), show(ex.ev(v)))
+                    elif fn.split(".")[-1] in ("read_byte", "read_halfword", "read_word") and ".memory." in fn:
+                        continue  # a discarded read changes no register / memory / pc (its accounting is C09's business)
                     else:
                         raise Unrecognised(f"call {fn[:50]}")
                 else:
